@@ -1123,4 +1123,758 @@ theorem parseInst_ref (G : Tables) (hc : coreKindsOk G = true) (τ : Tracker) (i
             congr 1
             omega
 
+/-! ### successful paths account exactly for the limit -/
+
+/-- on a successful path every unit of limit charged is a word consumed: the end position implied by the limit stays put -/
+structure Keeps (d d' : DState) : Prop where
+  bytes : d'.bytes = d.bytes
+  inv : C11.Inv d → C11.Inv d'
+  pos : ∀ l, d.limit = some l → ∃ l', d'.limit = some l' ∧ d'.offset + 4 * l' = d.offset + 4 * l
+
+theorem Keeps.refl (d : DState) : Keeps d d := ⟨rfl, id, fun l h => ⟨l, h, rfl⟩⟩
+
+theorem Keeps.trans {a b c : DState} (h1 : Keeps a b) (h2 : Keeps b c) : Keeps a c :=
+  ⟨h2.bytes.trans h1.bytes, fun h => h2.inv (h1.inv h), fun l hl => by
+    obtain ⟨l1, e1, p1⟩ := h1.pos l hl
+    obtain ⟨l2, e2, p2⟩ := h2.pos l1 e1
+    exact ⟨l2, e2, by omega⟩⟩
+
+theorem Keeps.small {d d' : DState} (h : Keeps d d') (hs : Small d) : Small d' := by
+  unfold Small at *; rw [h.bytes]; exact hs
+
+theorem word_keeps (d : DState) (v : Nat) (d' : DState) (h : word d = (.ok v, d')) : Keeps d d' := by
+  rcases word_spec d with ⟨_, hw⟩ | ⟨hl0, hb, hw⟩ | ⟨_, _, hw⟩ <;> rw [hw] at h
+  · cases h
+  · cases h
+    refine ⟨rfl, fun _ => by unfold C11.Inv; simpa using hb, ?_⟩
+    intro l hl
+    cases l with
+    | zero => exact absurd hl hl0
+    | succ l => exact ⟨l, by simp [hl], by simp; omega⟩
+  · cases h
+
+theorem string_keeps (d : DState) (hi : C11.Inv d) (hs : Small d) (bs : List Nat) (d' : DState)
+    (h : DState.string d = (.ok bs, d')) : Keeps d d' := by
+  obtain ⟨_, _, ok⟩ := string_spec d hi hs
+  rw [h] at ok
+  obtain ⟨nul, _, _, _, _, hoff, hin, hb, hlim, _⟩ := ok bs rfl
+  dsimp only at hoff hin hb hlim
+  refine ⟨hb, fun _ => by unfold C11.Inv; rw [hb]; exact hin, ?_⟩
+  intro l hl
+  obtain ⟨hle, hl'⟩ := hlim l hl
+  exact ⟨_, hl', by omega⟩
+
+theorem enum_keeps (E : EnumSpec) (ev : Nat) (d : DState) (v : Nat) (d' : DState) (h : DState.enum E ev d = (.ok v, d')) :
+    Keeps d d' := by
+  unfold DState.enum at h
+  cases hw : word d with
+  | mk r d1 =>
+    rw [hw] at h
+    cases r with
+    | ok w =>
+      dsimp only at h
+      cases hf : E.fromU32 w with
+      | some x => rw [hf] at h; cases h; exact word_keeps d w _ hw
+      | none => rw [hf] at h; dsimp only at h; split at h <;> cases h
+    | err _ => cases h
+    | panic _ => cases h
+
+theorem mask_keeps (M : MaskSpec) (ev : Nat) (d : DState) (v : Nat) (d' : DState) (h : DState.mask M ev d = (.ok v, d')) :
+    Keeps d d' := by
+  unfold DState.mask at h
+  cases hw : word d with
+  | mk r d1 =>
+    rw [hw] at h
+    cases r with
+    | ok w =>
+      dsimp only at h
+      cases hf : M.fromBits w with
+      | some x => rw [hf] at h; cases h; exact word_keeps d w _ hw
+      | none => rw [hf] at h; dsimp only at h; split at h <;> cases h
+    | err _ => cases h
+    | panic _ => cases h
+
+theorem decodeElem_keeps (G : Tables) (e : Elem) (d : DState) (hi : C11.Inv d) (hs : Small d) (o : Operand) (d' : DState)
+    (h : decodeElem G e d = (.ok o, d')) : Keeps d d' := by
+  unfold decodeElem at h
+  split at h
+  · split at h
+    · rename_i E _
+      cases hr : DState.enum E e.ev d with
+      | mk r d1 =>
+        rw [hr] at h
+        cases r with
+        | ok v => cases h; exact enum_keeps E e.ev d v _ hr
+        | err _ => cases h
+        | panic _ => cases h
+    · cases h
+  · split at h
+    · split at h
+      · rename_i M _
+        cases hr : DState.mask M e.ev d with
+        | mk r d1 =>
+          rw [hr] at h
+          cases r with
+          | ok v => cases h; exact mask_keeps M e.ev d v _ hr
+          | err _ => cases h
+          | panic _ => cases h
+      · cases h
+    · split at h
+      · cases hw : word d with
+        | mk r d1 =>
+          rw [hw] at h
+          cases r with
+          | ok w => cases h; exact word_keeps d w _ hw
+          | err _ => cases h
+          | panic _ => cases h
+      · cases hw : DState.string d with
+        | mk r d1 =>
+          rw [hw] at h
+          cases r with
+          | ok bs => cases h; exact string_keeps d hi hs bs _ hw
+          | err _ => cases h
+          | panic _ => cases h
+
+theorem decodeElems_keeps (G : Tables) : ∀ (es : List Elem) (d : DState), C11.Inv d → Small d → ∀ (os : List Operand)
+    (d' : DState), decodeElems G es d = (.ok os, d') → Keeps d d'
+  | [], d, _, _, os, d', h => by simp only [decodeElems] at h; cases h; exact Keeps.refl d
+  | e :: es, d, hi, hs, os, d', h => by
+    unfold decodeElems at h
+    cases hr : decodeElem G e d with
+    | mk r d1 =>
+      rw [hr] at h
+      cases r with
+      | ok o =>
+        have k1 := decodeElem_keeps G e d hi hs o d1 hr
+        dsimp only at h
+        cases hr2 : decodeElems G es d1 with
+        | mk r2 d2 =>
+          rw [hr2] at h
+          cases r2 with
+          | ok os' => cases h; exact k1.trans (decodeElems_keeps G es d1 (k1.inv hi) (k1.small hs) os' _ hr2)
+          | err _ => cases h
+          | panic _ => cases h
+      | err _ => cases h
+      | panic _ => cases h
+
+theorem parseOperand_keeps (G : Tables) (k : Nat) (d : DState) (hi : C11.Inv d) (hs : Small d) (os : List Operand)
+    (d' : DState) (h : parseOperand G k d = (.ok os, d')) : Keeps d d' := by
+  unfold parseOperand at h
+  split at h
+  · cases h
+  · cases h
+  · exact decodeElems_keeps G _ d hi hs os d' h
+  · rename_i e rows _
+    cases hr : decodeElem G e d with
+    | mk r d1 =>
+      rw [hr] at h
+      cases r with
+      | ok v =>
+        have k1 := decodeElem_keeps G e d hi hs v d1 hr
+        dsimp only at h
+        cases hr2 : decodeElems G (maskSel rows v.num) d1 with
+        | mk r2 d2 =>
+          rw [hr2] at h
+          cases r2 with
+          | ok os' => cases h; exact k1.trans (decodeElems_keeps G _ d1 (k1.inv hi) (k1.small hs) os' _ hr2)
+          | err _ => cases h
+          | panic _ => cases h
+      | err _ => cases h
+      | panic _ => cases h
+  · rename_i e rows _
+    cases hr : decodeElem G e d with
+    | mk r d1 =>
+      rw [hr] at h
+      cases r with
+      | ok v =>
+        have k1 := decodeElem_keeps G e d hi hs v d1 hr
+        dsimp only at h
+        cases hr2 : decodeElems G (enumSel rows v.num) d1 with
+        | mk r2 d2 =>
+          rw [hr2] at h
+          cases r2 with
+          | ok os' => cases h; exact k1.trans (decodeElems_keeps G _ d1 (k1.inv hi) (k1.small hs) os' _ hr2)
+          | err _ => cases h
+          | panic _ => cases h
+      | err _ => cases h
+      | panic _ => cases h
+
+theorem litOne_keeps (G : Tables) (d : DState) (o : Operand) (d' : DState) (h : litOne G d = (.ok o, d')) : Keeps d d' := by
+  unfold litOne at h
+  cases hw : word d with
+  | mk r d1 =>
+    rw [hw] at h
+    cases r with
+    | ok w => cases h; exact word_keeps d w _ hw
+    | err _ => cases h
+    | panic _ => cases h
+
+theorem litTwo_keeps (d : DState) (o : Operand) (d' : DState) (h : litTwo d = (.ok o, d')) : Keeps d d' := by
+  unfold litTwo bit64 at h
+  cases hw : word d with
+  | mk r d1 =>
+    rw [hw] at h
+    cases r with
+    | ok lo =>
+      dsimp only at h
+      cases hw2 : word d1 with
+      | mk r2 d2 =>
+        rw [hw2] at h
+        cases r2 with
+        | ok hi => cases h; exact (word_keeps d lo _ hw).trans (word_keeps d1 hi _ hw2)
+        | err _ => cases h
+        | panic _ => cases h
+    | err _ => cases h
+    | panic _ => cases h
+
+theorem parseLiteral_keeps (G : Tables) (τ : Tracker) (idx ty : Nat) (d : DState) (o : Operand) (d' : DState)
+    (h : parseLiteral G τ idx ty d = (.ok o, d')) : Keeps d d' := by
+  unfold parseLiteral at h
+  split at h
+  · split at h
+    · exact litOne_keeps G d o d' h
+    · split at h
+      · exact litTwo_keeps d o d' h
+      · cases h
+  · split at h
+    · exact litOne_keeps G d o d' h
+    · split at h
+      · exact litTwo_keeps d o d' h
+      · cases h
+  · exact litOne_keeps G d o d' h
+
+theorem parseMany_keeps (G : Tables) (k : Nat) : ∀ (fuel : Nat) (d : DState), C11.Inv d → Small d → ∀ (os : List Operand)
+    (d' : DState), parseMany G k fuel d = (.ok os, d') → Keeps d d'
+  | 0, d, _, _, os, d', h => by simp only [parseMany] at h; cases h
+  | fuel + 1, d, hi, hs, os, d', h => by
+    unfold parseMany at h
+    split at h
+    · cases h; exact Keeps.refl d
+    · cases hr : parseOperand G k d with
+      | mk r d1 =>
+        rw [hr] at h
+        cases r with
+        | ok os1 =>
+          have k1 := parseOperand_keeps G k d hi hs os1 d1 hr
+          dsimp only at h
+          cases hr2 : parseMany G k fuel d1 with
+          | mk r2 d2 =>
+            rw [hr2] at h
+            cases r2 with
+            | ok more => cases h; exact k1.trans (parseMany_keeps G k fuel d1 (k1.inv hi) (k1.small hs) more _ hr2)
+            | err _ => cases h
+            | panic _ => cases h
+        | err _ => cases h
+        | panic _ => cases h
+
+theorem parseNested_keeps (G : Tables) : ∀ (ops : List (Nat × Nat)) (d : DState), C11.Inv d → Small d →
+    ∀ (os : List Operand) (d' : DState), parseNested G ops d = (.ok os, d') → Keeps d d'
+  | [], d, _, _, os, d', h => by simp only [parseNested] at h; cases h; exact Keeps.refl d
+  | (k, q) :: rest, d, hi, hs, os, d', h => by
+    unfold parseNested at h
+    split at h
+    · exact parseNested_keeps G rest d hi hs os d' h
+    · have hhere : ∀ (r : PRes IErr (List Operand) × DState),
+          r = (if q == 0 then parseOperand G k d
+               else if q == 1 then (if d.limitReached then (.ok [], d) else parseOperand G k d)
+               else parseMany G k ((d.limit.getD 0) + 1) d) → ∀ os1 d1, r = (.ok os1, d1) → Keeps d d1 := by
+        intro r hr os1 d1 he
+        subst hr
+        split at he
+        · exact parseOperand_keeps G k d hi hs os1 d1 he
+        · split at he
+          · split at he
+            · cases he; exact Keeps.refl d
+            · exact parseOperand_keeps G k d hi hs os1 d1 he
+          · exact parseMany_keeps G k _ d hi hs os1 d1 he
+      generalize hg : (if q == 0 then parseOperand G k d
+               else if q == 1 then (if d.limitReached then (.ok [], d) else parseOperand G k d)
+               else parseMany G k ((d.limit.getD 0) + 1) d) = here at h
+      obtain ⟨r, d1⟩ := here
+      cases r with
+      | ok os1 =>
+        have k1 := hhere _ hg.symm os1 d1 rfl
+        dsimp only at h
+        cases hr2 : parseNested G rest d1 with
+        | mk r2 d2 =>
+          rw [hr2] at h
+          cases r2 with
+          | ok more => cases h; exact k1.trans (parseNested_keeps G rest d1 (k1.inv hi) (k1.small hs) more _ hr2)
+          | err _ => cases h
+          | panic _ => cases h
+      | err _ => cases h
+      | panic _ => cases h
+
+theorem parseSpecConstantOp_keeps (G : Tables) (idx : Nat) (d : DState) (hi : C11.Inv d) (hs : Small d) (os : List Operand)
+    (d' : DState) (h : parseSpecConstantOp G idx d = (.ok os, d')) : Keeps d d' := by
+  unfold parseSpecConstantOp at h
+  cases hw : word d with
+  | mk r d1 =>
+    rw [hw] at h
+    cases r with
+    | err _ => cases h
+    | panic _ => cases h
+    | ok number =>
+      have k1 := word_keeps d number d1 hw
+      dsimp only at h
+      split at h
+      · rename_i e _
+        cases hr2 : parseNested G e.ops d1 with
+        | mk r2 d2 =>
+          rw [hr2] at h
+          cases r2 with
+          | ok os' => cases h; exact k1.trans (parseNested_keeps G e.ops d1 (k1.inv hi) (k1.small hs) os' _ hr2)
+          | err _ => cases h
+          | panic _ => cases h
+      · cases h
+
+theorem parseOne_keeps (G : Tables) (τ : Tracker) (idx opcode k : Nat) (a : Acc) (d : DState) (hi : C11.Inv d)
+    (hs : Small d) (a1 : Acc) (d' : DState) (h : parseOne G τ idx opcode k a d = (.ok a1, d')) : Keeps d d' := by
+  unfold parseOne at h
+  split at h
+  · cases hw : word d with
+    | mk r d1 =>
+      rw [hw] at h
+      cases r with
+      | ok w => cases h; exact word_keeps d w _ hw
+      | err _ => cases h
+      | panic _ => cases h
+  · split at h
+    · cases hw : word d with
+      | mk r d1 =>
+        rw [hw] at h
+        cases r with
+        | ok w => cases h; exact word_keeps d w _ hw
+        | err _ => cases h
+        | panic _ => cases h
+    · split at h
+      · split at h
+        · cases h
+        · split at h
+          · cases h
+          · rename_i ty _
+            cases hr : parseLiteral G τ idx ty d with
+            | mk r d1 =>
+              rw [hr] at h
+              cases r with
+              | ok o => cases h; exact parseLiteral_keeps G τ idx ty d o _ hr
+              | err _ => cases h
+              | panic _ => cases h
+      · split at h
+        · split at h
+          · cases h
+          · split at h
+            · cases h
+            · split at h
+              · split at h
+                · cases h
+                · rename_i sel _ _
+                  cases hr : parseLiteral G τ idx sel d with
+                  | mk r d1 =>
+                    rw [hr] at h
+                    cases r with
+                    | ok lit =>
+                      have k1 := parseLiteral_keeps G τ idx sel d lit d1 hr
+                      dsimp only at h
+                      cases hw : word d1 with
+                      | mk r2 d2 =>
+                        rw [hw] at h
+                        cases r2 with
+                        | ok tgt => cases h; exact k1.trans (word_keeps d1 tgt _ hw)
+                        | err _ => cases h
+                        | panic _ => cases h
+                    | err _ => cases h
+                    | panic _ => cases h
+              · cases h
+        · split at h
+          · cases hr : parseSpecConstantOp G idx d with
+            | mk r d1 =>
+              rw [hr] at h
+              cases r with
+              | ok os => cases h; exact parseSpecConstantOp_keeps G idx d hi hs os _ hr
+              | err _ => cases h
+              | panic _ => cases h
+          · cases hr : parseOperand G k d with
+            | mk r d1 =>
+              rw [hr] at h
+              cases r with
+              | ok os => cases h; exact parseOperand_keeps G k d hi hs os _ hr
+              | err _ => cases h
+              | panic _ => cases h
+
+theorem loop_keeps (G : Tables) (τ : Tracker) (idx opcode : Nat) : ∀ (fuel : Nat) (ops : List (Nat × Nat)) (a : Acc)
+    (d : DState), C11.Inv d → Small d → ∀ (a' : Acc) (d' : DState),
+    parseOperandsLoop G τ idx opcode fuel ops a d = (.ok a', d') → Keeps d d'
+  | 0, _, _, _, _, _, _, _, h => by simp only [parseOperandsLoop] at h; cases h
+  | fuel + 1, [], a, d, _, _, a', d', h => by simp only [parseOperandsLoop] at h; cases h; exact Keeps.refl d
+  | fuel + 1, (k, q) :: rest, a, d, hi, hs, a', d', h => by
+    unfold parseOperandsLoop at h
+    split at h
+    · cases hr : parseOne G τ idx opcode k a d with
+      | mk r d1 =>
+        rw [hr] at h
+        cases r with
+        | ok a1 =>
+          have k1 := parseOne_keeps G τ idx opcode k a d hi hs a1 d1 hr
+          dsimp only at h
+          split at h
+          · exact k1.trans (loop_keeps G τ idx opcode fuel _ a1 d1 (k1.inv hi) (k1.small hs) a' d' h)
+          · exact k1.trans (loop_keeps G τ idx opcode fuel _ a1 d1 (k1.inv hi) (k1.small hs) a' d' h)
+        | err _ => cases h
+        | panic _ => cases h
+    · split at h
+      · cases h
+      · cases h; exact Keeps.refl d
+
+/-- **an instruction whose declared extent runs past the end of the stream is never accepted** -/
+theorem parseInst_overrun (G : Tables) (τ : Tracker) (idx : Nat) (d : DState) (w0 : Nat) (t : List Nat)
+    (hv : SView B d (w0 :: t)) (hover : t.length < w0 / 65536 - 1) : ∀ i d', parseInst G τ idx d ≠ (.ok i, d') := by
+  intro i d' h
+  have hb := hv.bytes
+  have hfits := hv.fits
+  have htail := hv.tail
+  simp only [List.length_cons] at hfits htail
+  have hw : word d = (.ok w0, { d with offset := d.offset + 4 }) := by
+    rcases word_spec d with ⟨h0, _⟩ | ⟨_, _, hw⟩ | ⟨_, hb', _⟩
+    · rw [hv.limit] at h0; cases h0
+    · have h0 := hv.words 0 (by simp)
+      simp only [Nat.mul_zero, Nat.add_zero, List.getD_eq_getElem?_getD, List.getElem?_cons_zero, Option.getD_some] at h0
+      rw [hw, hb, h0, hv.limit]; rfl
+    · rw [hb] at hb'; exact absurd (by omega) hb'
+  unfold parseInst at h
+  rw [hw] at h
+  dsimp only at h
+  split at h
+  · cases h
+  · split at h
+    · rename_i ent _
+      have hi2 : C11.Inv (DState.setLimit (w0 / 65536 - 1) { d with offset := d.offset + 4 }) := by
+        unfold C11.Inv DState.setLimit; simp only; rw [hb]; omega
+      have hs2 : Small (DState.setLimit (w0 / 65536 - 1) { d with offset := d.offset + 4 }) := by
+        unfold Small DState.setLimit; simp only; rw [hb]; exact hv.small
+      cases hr : parseOperandsLoop G τ idx ent.opcode (w0 / 65536 + ent.ops.length + 1) ent.ops ⟨none, none, []⟩
+          (DState.setLimit (w0 / 65536 - 1) { d with offset := d.offset + 4 }) with
+      | mk r d3 =>
+        rw [hr] at h
+        cases r with
+        | ok a =>
+          have kp := loop_keeps G τ idx ent.opcode _ _ _ _ hi2 hs2 a d3 hr
+          dsimp only at h
+          split at h
+          · cases h
+          · rename_i hlr
+            obtain ⟨l3, hl3, hpos⟩ := kp.pos (w0 / 65536 - 1) rfl
+            have hz : l3 = 0 := by
+              unfold DState.limitReached at hlr
+              rw [hl3] at hlr
+              simpa using hlr
+            have hi3 := kp.inv hi2
+            unfold C11.Inv at hi3
+            rw [kp.bytes] at hi3
+            simp only [DState.setLimit] at hpos hi3
+            rw [hb] at hi3
+            subst hz
+            omega
+        | err _ => cases h
+        | panic _ => cases h
+    · cases h
+
+/-! ### `Complete` is reported only at the end of the stream -/
+
+/-- the routine does not fail with the end-of-stream marker -/
+def NC {α : Type} (r : PRes IErr α × DState) : Prop := ∀ d', r ≠ (.err .complete, d')
+
+theorem decodeElem_nc (G : Tables) (e : Elem) (d : DState) : NC (decodeElem G e d) := by
+  intro d' h
+  unfold decodeElem at h
+  split at h
+  · split at h
+    · split at h <;> cases h
+    · cases h
+  · split at h
+    · split at h
+      · split at h <;> cases h
+      · cases h
+    · split at h
+      · split at h <;> cases h
+      · split at h <;> cases h
+
+theorem decodeElems_nc (G : Tables) : ∀ (es : List Elem) (d : DState), NC (decodeElems G es d)
+  | [], d => by intro d' h; simp only [decodeElems] at h; cases h
+  | e :: es, d => by
+    intro d' h
+    unfold decodeElems at h
+    cases hr : decodeElem G e d with
+    | mk r d1 =>
+      rw [hr] at h
+      cases r with
+      | ok o =>
+        dsimp only at h
+        cases hr2 : decodeElems G es d1 with
+        | mk r2 d2 =>
+          rw [hr2] at h
+          cases r2 with
+          | ok os => cases h
+          | err x => dsimp only at h; cases h; exact decodeElems_nc G es d1 _ hr2
+          | panic _ => cases h
+      | err x => cases h; exact decodeElem_nc G e d _ hr
+      | panic _ => cases h
+
+theorem parseOperand_nc (G : Tables) (k : Nat) (d : DState) : NC (parseOperand G k d) := by
+  intro d' h
+  unfold parseOperand at h
+  split at h
+  · cases h
+  · cases h
+  · exact decodeElems_nc G _ d d' h
+  · rename_i e rows _
+    cases hr : decodeElem G e d with
+    | mk r d1 =>
+      rw [hr] at h
+      cases r with
+      | ok v =>
+        dsimp only at h
+        cases hr2 : decodeElems G (maskSel rows v.num) d1 with
+        | mk r2 d2 =>
+          rw [hr2] at h
+          cases r2 with
+          | ok os => cases h
+          | err x => dsimp only at h; cases h; exact decodeElems_nc G _ d1 _ hr2
+          | panic _ => cases h
+      | err x => cases h; exact decodeElem_nc G e d _ hr
+      | panic _ => cases h
+  · rename_i e rows _
+    cases hr : decodeElem G e d with
+    | mk r d1 =>
+      rw [hr] at h
+      cases r with
+      | ok v =>
+        dsimp only at h
+        cases hr2 : decodeElems G (enumSel rows v.num) d1 with
+        | mk r2 d2 =>
+          rw [hr2] at h
+          cases r2 with
+          | ok os => cases h
+          | err x => dsimp only at h; cases h; exact decodeElems_nc G _ d1 _ hr2
+          | panic _ => cases h
+      | err x => cases h; exact decodeElem_nc G e d _ hr
+      | panic _ => cases h
+
+theorem parseLiteral_nc (G : Tables) (τ : Tracker) (idx ty : Nat) (d : DState) : NC (parseLiteral G τ idx ty d) := by
+  have h1 : NC (litOne G d) := by
+    intro d' h; unfold litOne at h; split at h <;> cases h
+  have h2 : NC (litTwo d) := by
+    intro d' h; unfold litTwo at h; split at h <;> cases h
+  intro d' h
+  unfold parseLiteral at h
+  split at h
+  · split at h
+    · exact h1 d' h
+    · split at h
+      · exact h2 d' h
+      · cases h
+  · split at h
+    · exact h1 d' h
+    · split at h
+      · exact h2 d' h
+      · cases h
+  · exact h1 d' h
+
+theorem parseMany_nc (G : Tables) (k : Nat) : ∀ (fuel : Nat) (d : DState), NC (parseMany G k fuel d)
+  | 0, d => by intro d' h; simp only [parseMany] at h; cases h
+  | fuel + 1, d => by
+    intro d' h
+    unfold parseMany at h
+    split at h
+    · cases h
+    · cases hr : parseOperand G k d with
+      | mk r d1 =>
+        rw [hr] at h
+        cases r with
+        | ok os =>
+          dsimp only at h
+          cases hr2 : parseMany G k fuel d1 with
+          | mk r2 d2 =>
+            rw [hr2] at h
+            cases r2 with
+            | ok more => cases h
+            | err x => dsimp only at h; cases h; exact parseMany_nc G k fuel d1 _ hr2
+            | panic _ => cases h
+        | err x => dsimp only at h; cases h; exact parseOperand_nc G k d _ hr
+        | panic _ => cases h
+
+theorem parseNested_nc (G : Tables) : ∀ (ops : List (Nat × Nat)) (d : DState), NC (parseNested G ops d)
+  | [], d => by intro d' h; simp only [parseNested] at h; cases h
+  | (k, q) :: rest, d => by
+    intro d' h
+    unfold parseNested at h
+    split at h
+    · exact parseNested_nc G rest d d' h
+    · have hhere : NC (if q == 0 then parseOperand G k d
+               else if q == 1 then (if d.limitReached then (.ok [], d) else parseOperand G k d)
+               else parseMany G k ((d.limit.getD 0) + 1) d) := by
+        intro d'' he
+        split at he
+        · exact parseOperand_nc G k d d'' he
+        · split at he
+          · split at he
+            · cases he
+            · exact parseOperand_nc G k d d'' he
+          · exact parseMany_nc G k _ d d'' he
+      generalize (if q == 0 then parseOperand G k d
+               else if q == 1 then (if d.limitReached then (.ok [], d) else parseOperand G k d)
+               else parseMany G k ((d.limit.getD 0) + 1) d) = here at h hhere
+      obtain ⟨r, d1⟩ := here
+      cases r with
+      | ok os =>
+        dsimp only at h
+        cases hr2 : parseNested G rest d1 with
+        | mk r2 d2 =>
+          rw [hr2] at h
+          cases r2 with
+          | ok more => cases h
+          | err x => dsimp only at h; cases h; exact parseNested_nc G rest d1 _ hr2
+          | panic _ => cases h
+      | err x => dsimp only at h; cases h; exact hhere _ rfl
+      | panic _ => cases h
+
+theorem parseSpecConstantOp_nc (G : Tables) (idx : Nat) (d : DState) : NC (parseSpecConstantOp G idx d) := by
+  intro d' h
+  unfold parseSpecConstantOp at h
+  cases hw : word d with
+  | mk r d1 =>
+    rw [hw] at h
+    cases r with
+    | err _ => cases h
+    | panic _ => cases h
+    | ok number =>
+      dsimp only at h
+      split at h
+      · rename_i e _
+        cases hr2 : parseNested G e.ops d1 with
+        | mk r2 d2 =>
+          rw [hr2] at h
+          cases r2 with
+          | ok os => cases h
+          | err x => dsimp only at h; cases h; exact parseNested_nc G e.ops d1 _ hr2
+          | panic _ => cases h
+      · cases h
+
+theorem parseOne_nc (G : Tables) (τ : Tracker) (idx opcode k : Nat) (a : Acc) (d : DState) :
+    NC (parseOne G τ idx opcode k a d) := by
+  intro d' h
+  unfold parseOne at h
+  split at h
+  · split at h <;> cases h
+  · split at h
+    · split at h <;> cases h
+    · split at h
+      · split at h
+        · cases h
+        · split at h
+          · cases h
+          · rename_i ty _
+            cases hr : parseLiteral G τ idx ty d with
+            | mk r d1 =>
+              rw [hr] at h
+              cases r with
+              | ok o => cases h
+              | err x => cases h; exact parseLiteral_nc G τ idx ty d _ hr
+              | panic _ => cases h
+      · split at h
+        · split at h
+          · cases h
+          · split at h
+            · cases h
+            · split at h
+              · split at h
+                · cases h
+                · rename_i sel _ _
+                  cases hr : parseLiteral G τ idx sel d with
+                  | mk r d1 =>
+                    rw [hr] at h
+                    cases r with
+                    | ok lit => dsimp only at h; split at h <;> cases h
+                    | err x => cases h; exact parseLiteral_nc G τ idx sel d _ hr
+                    | panic _ => cases h
+              · cases h
+        · split at h
+          · cases hr : parseSpecConstantOp G idx d with
+            | mk r d1 =>
+              rw [hr] at h
+              cases r with
+              | ok os => cases h
+              | err x => cases h; exact parseSpecConstantOp_nc G idx d _ hr
+              | panic _ => cases h
+          · cases hr : parseOperand G k d with
+            | mk r d1 =>
+              rw [hr] at h
+              cases r with
+              | ok os => cases h
+              | err x => cases h; exact parseOperand_nc G k d _ hr
+              | panic _ => cases h
+
+theorem loop_nc (G : Tables) (τ : Tracker) (idx opcode : Nat) : ∀ (fuel : Nat) (ops : List (Nat × Nat)) (a : Acc)
+    (d : DState), NC (parseOperandsLoop G τ idx opcode fuel ops a d)
+  | 0, _, _, _ => by intro d' h; simp only [parseOperandsLoop] at h; cases h
+  | fuel + 1, [], a, d => by intro d' h; simp only [parseOperandsLoop] at h; cases h
+  | fuel + 1, (k, q) :: rest, a, d => by
+    intro d' h
+    unfold parseOperandsLoop at h
+    split at h
+    · cases hr : parseOne G τ idx opcode k a d with
+      | mk r d1 =>
+        rw [hr] at h
+        cases r with
+        | ok a1 =>
+          dsimp only at h
+          split at h
+          · exact loop_nc G τ idx opcode fuel _ a1 d1 d' h
+          · exact loop_nc G τ idx opcode fuel _ a1 d1 d' h
+        | err x => dsimp only at h; cases h; exact parseOne_nc G τ idx opcode k a d _ hr
+        | panic _ => cases h
+    · split at h <;> cases h
+
+/-- `parse_inst` reports the end of the stream only when no whole word is left -/
+theorem parseInst_complete (G : Tables) (τ : Tracker) (idx : Nat) (d : DState) (w0 : Nat) (t : List Nat)
+    (hv : SView B d (w0 :: t)) : ∀ d', parseInst G τ idx d ≠ (.err .complete, d') := by
+  intro d' h
+  have hb := hv.bytes
+  have hfits := hv.fits
+  simp only [List.length_cons] at hfits
+  have hw : word d = (.ok w0, { d with offset := d.offset + 4 }) := by
+    rcases word_spec d with ⟨h0, _⟩ | ⟨_, _, hw⟩ | ⟨_, hb', _⟩
+    · rw [hv.limit] at h0; cases h0
+    · have h0 := hv.words 0 (by simp)
+      simp only [Nat.mul_zero, Nat.add_zero, List.getD_eq_getElem?_getD, List.getElem?_cons_zero, Option.getD_some] at h0
+      rw [hw, hb, h0, hv.limit]; rfl
+    · rw [hb] at hb'; exact absurd (by omega) hb'
+  unfold parseInst at h
+  rw [hw] at h
+  dsimp only at h
+  split at h
+  · cases h
+  · split at h
+    · rename_i ent _
+      cases hr : parseOperandsLoop G τ idx ent.opcode (w0 / 65536 + ent.ops.length + 1) ent.ops ⟨none, none, []⟩
+          (DState.setLimit (w0 / 65536 - 1) { d with offset := d.offset + 4 }) with
+      | mk r d3 =>
+        rw [hr] at h
+        cases r with
+        | ok a => dsimp only at h; split at h <;> cases h
+        | err x => dsimp only at h; cases h; exact loop_nc G τ idx ent.opcode _ _ _ _ _ hr
+        | panic _ => cases h
+    · cases h
+
+/-- at the end of the stream (fewer than four bytes left) `parse_inst` reports `Complete` -/
+theorem parseInst_end (G : Tables) (τ : Tracker) (idx : Nat) (d : DState) (hv : SView B d []) :
+    ∃ d', parseInst G τ idx d = (.err .complete, d') := by
+  have htail := hv.tail
+  simp only [List.length_nil, Nat.mul_zero, Nat.add_zero] at htail
+  unfold parseInst
+  rcases word_spec d with ⟨h0, _⟩ | ⟨_, hb', _⟩ | ⟨_, _, hw⟩
+  · rw [hv.limit] at h0; cases h0
+  · rw [hv.bytes] at hb'; exact absurd hb' (by omega)
+  · rw [hw]; exact ⟨_, rfl⟩
+
 end Rspirv.Props.ParserSpec
